@@ -19,6 +19,7 @@ def _observe(self):
         mark=MARK,
         context=self.context,
         deps=[d.result['k'] for d in getattr(self, 'deps', ())],
+        lab_tag=(self.context or {}).get('lab_tag'),
         parent_main_file=getattr(sys.modules.get('__main__'), '__file__', None),
     )
 
@@ -65,5 +66,22 @@ class EnvCached:
 
     def run(self):
         o = _observe(self)
-        # the stored value must not depend on the context for the noninterference comparison
-        return dict(k=o['k'], deps=o['deps'])
+        # the stored value must not depend on the context for the noninterference comparison; it refers to the
+        # task object itself (a legal result), so whatever a pickled task carries ends up in the stored entry
+        return dict(k=o['k'], deps=o['deps'], produced_by=self)
+
+
+@labtech.task(cache=None)
+class EnvWait:
+    """blocks until a flag file exists (two Labs alive at once in one process)"""
+    k: int
+    wait_for: str
+    touch: str
+
+    def run(self):
+        import time
+        open(self.touch, 'w').close()
+        t0 = time.time()
+        while not os.path.exists(self.wait_for) and time.time() - t0 < 20:
+            time.sleep(0.02)
+        return _observe(self)
